@@ -14,3 +14,10 @@ package ws
 //@   guarded_by lock: pending running closed
 //@   cond cv uses lock
 //@   immutable: addr proto iswss
+//@
+//@ func (*wsPipe).Send
+//@   before call:WriteMessage#1 assert len(buf) == len(m.Header) + len(m.Body)
+//@   before call:WriteMessage#1 assert eqseq(buf[:len(m.Header)], m.Header) && eqseq(buf[len(m.Header):], m.Body)
+//@
+//@ func (*wsPipe).Recv
+//@   ensures isnil(result1) ==> result0 != nil && len(result0.Header) == 0
